@@ -45,6 +45,11 @@ pub enum Error {
     )]
     Machine(machine::Error, ExBudget, Vec<Trace>),
 
+    #[error(
+        "the validator returned something else than unit, which {:?} scripts must not",
+        .0
+    )]
+    InvalidScriptResult(Language, ExBudget),
     #[error("native script can't be executed in phase-two")]
     NativeScriptPhaseTwo,
     #[error("can't eval without redeemers")]
